@@ -984,6 +984,21 @@ func (env *specEnv) call(x *SCall) SV {
 		return env.withState(st, env.old).eval(x.Args[1])
 	case "held", "heldw", "heldr":
 		// held(x.lock): the mutex field is held by this goroutine (any mode / write / read)
+		if gid, isID := x.Args[0].(*SIdent); isID && env.pkg != nil {
+			// a package-level mutex variable
+			if sp := e.W.prog.ImportedPackage(env.pkg.Path()); sp != nil {
+				if g, ok := sp.Members[gid.Name].(*ssa.Global); ok {
+					h := tSel(e.heldArr(env.cur), e.val(g).T)
+					switch id.Name {
+					case "heldw":
+						return SV{T: tEq(h, "2"), Sort: "Bool"}
+					case "heldr":
+						return SV{T: tEq(h, "1"), Sort: "Bool"}
+					}
+					return SV{T: tNot(tEq(h, "0")), Sort: "Bool"}
+				}
+			}
+		}
 		sel, ok := x.Args[0].(*SSel)
 		if !ok {
 			env.fail("%s(x.lockfield)", id.Name)
